@@ -608,8 +608,34 @@ func DependsOn(v ssa.Value, pred func(ssa.Value) bool) bool {
 				return true
 			}
 		}
-		// in-place big.Int mutation: x.Add(x, y) makes x depend on y — follow calls whose
-		// receiver is v
+		// out-parameter flow: a buffer (slice/alloc/new object) passed to a call is assumed to be
+		// filled from that call's other arguments (binary.PutUint64(h, x), z.Add(x, y), …)
+		switch v.(type) {
+		case *ssa.MakeSlice, *ssa.Alloc, *ssa.Slice, *ssa.Call:
+			if refs := v.Referrers(); refs != nil {
+				for _, r := range *refs {
+					ci, ok := r.(ssa.CallInstruction)
+					if !ok {
+						continue
+					}
+					cc := ci.Common()
+					isArg := false
+					for _, a := range cc.Args {
+						if a == v {
+							isArg = true
+						}
+					}
+					if !isArg {
+						continue
+					}
+					for _, a := range cc.Args {
+						if a != v && walk(a) {
+							return true
+						}
+					}
+				}
+			}
+		}
 		return false
 	}
 	return walk(v)
@@ -716,5 +742,22 @@ func (cg *CallGraph) Callers(fn *ssa.Function) []*ssa.Function {
 		}
 	}
 	sort.Slice(out, func(i, j int) bool { return out[i].String() < out[j].String() })
+	return out
+}
+
+// ResultOrigins returns the origin values of the i-th result over all normal returns of fn
+// (the synthetic recover block of functions with defers is skipped; defer-spilled results are
+// followed through their cell).
+func ResultOrigins(fn *ssa.Function, i int) []ssa.Value {
+	var out []ssa.Value
+	for _, r := range Returns(fn) {
+		if fn.Recover != nil && r.Block() == fn.Recover {
+			continue
+		}
+		if i >= len(r.Results) {
+			continue
+		}
+		out = append(out, Origins(r.Results[i])...)
+	}
 	return out
 }
